@@ -5,39 +5,54 @@
 -/
 import MantraDex.Driver.EpochStream
 import MantraDex.Driver.PoolStream
+import MantraDex.Driver.FarmStream
+import MantraDex.Driver.HistStream
 
 open MantraDex MantraDex.Driver
 
-def dispatch (op : String) (args : List String) : String :=
+/-- stateless streams -/
+def dispatchPure (op : String) (args : List String) : Option String :=
   match epochOp op args with
-  | some r => r
+  | some r => some r
   | none =>
   match swapmathOp op args with
-  | some r => r
+  | some r => some r
   | none =>
   match mintmathOp op args with
-  | some r => r
-  | none => "bad-op"
+  | some r => some r
+  | none => farmmathOp op args
+
+def dispatch (st : HistState) (op : String) (args : List String) : HistState × String :=
+  match dispatchPure op args with
+  | some r => (st, r)
+  | none =>
+    match histOp st op args with
+    | some (st', r) => (st', r)
+    | none => (st, "bad-op")
 
 def lhsOf (line : String) : String :=
   match line.splitOn " => " with
   | l :: _ => l.trimAscii.toString
   | [] => ""
 
-partial def loop (h : IO.FS.Stream) (out : IO.FS.Stream) : IO Unit := do
+partial def loop (h : IO.FS.Stream) (out : IO.FS.Stream) (st : HistState) : IO Unit := do
   let line ← h.getLine
   if line.isEmpty then return ()
   let lhs := lhsOf line
   if lhs.isEmpty || lhs.startsWith "#" then
-    loop h out
+    loop h out st
+  else if lhs.startsWith "begin" || lhs == "end" then
+    out.putStrLn lhs
+    loop h out {}
   else
     match lhs.splitOn " " with
     | op :: args =>
-      out.putStrLn (lhs ++ " => " ++ dispatch op (args.filter (· ≠ "")))
-      loop h out
-    | [] => loop h out
+      let (st', r) := dispatch st op (args.filter (· ≠ ""))
+      out.putStrLn (lhs ++ " => " ++ r)
+      loop h out st'
+    | [] => loop h out st
 
 def main : IO Unit := do
   let stdin ← IO.getStdin
   let stdout ← IO.getStdout
-  loop stdin stdout
+  loop stdin stdout {}
